@@ -453,6 +453,27 @@ func NewOpLib() *OpLib {
 			p.Txs = one("bot", &perptypes.MsgClosePositions{Creator: w.A("bot").Addr.String(), Liquidate: reqs})
 		})
 	}
+	l.Add("perp_update_sl_t2", "perp_update", 0, func(w *World, p *BlockPlan) {
+		ms := w.MTPsOf("t2")
+		id := uint64(1)
+		if len(ms) > 0 {
+			id = ms[0].Id
+		}
+		p.Txs = one("t2", &perptypes.MsgUpdateStopLoss{Creator: w.A("t2").Addr.String(), Id: id, Price: Dec(mulDecStr(w.Env.Atom, "1.1"))})
+	})
+	// price move and the bot's sweep in ONE block (the feeder's tx precedes the bot's): reaches the
+	// forced-close branches (liquidation / stop-loss / take-profit, long and short) one op earlier
+	for _, pr := range []string{"4.4", "3", "5.6", "8", "2"} {
+		pr := pr
+		l.Add("perp_bot_close_all_at_"+pr, "perp_bot", 1, func(w *World, p *BlockPlan) {
+			p.SetAtom = pr
+			reqs := []perptypes.PositionRequest{}
+			for _, m := range w.App.PerpetualKeeper.GetAllMTPs(w.RCtx()) {
+				reqs = append(reqs, perptypes.PositionRequest{Address: m.Address, Id: m.Id})
+			}
+			p.Txs = one("bot", &perptypes.MsgClosePositions{Creator: w.A("bot").Addr.String(), Liquidate: reqs, StopLoss: reqs, TakeProfit: reqs})
+		})
+	}
 	l.Add("perp_bot_close_all", "perp_bot", 0, func(w *World, p *BlockPlan) {
 		// bot names every stored position in all three lists (healthy or not)
 		reqs := []perptypes.PositionRequest{}
